@@ -92,6 +92,11 @@ func jsonForNamed(na *an.Named) string {
 	}
 	name, id := typeName(na), jsonID(na)
 	elemID := jsonID(na.Underlying)
+	if id == elemID {
+		// a type named like the helpers of its definition (type ListInt []int) :
+		// the typedef is an alias, these helpers already serve it
+		return ""
+	}
 	return fmt.Sprintf(`%s %sFromJson(dynamic json) { return %sFromJson(json); }
 
 	dynamic %sToJson(%s item) { return %sToJson(item); }
